@@ -809,8 +809,11 @@ func init() {
 			c.havocRegion(st, r)
 		}
 		res := x.results(st, resT, "keys")
-		// a freshly allocated slice (or nil when the map is empty)
+		// a freshly allocated slice (or nil when the map is empty) with one element per key
 		c.assume(or(eq(sRef(res.S), "0"), sx(">", sRef(res.S), pre)))
+		if _, isMap := args[0].T.Underlying().(*types.Map); isMap {
+			c.assume(eq(sLen(res.S), x.mapLen(st, args[0].T, args[0].S)))
+		}
 		c.note("trusted: maps.Keys returns a fresh slice holding the keys of the map in unspecified order")
 		return res
 	}
@@ -848,6 +851,14 @@ func init() {
 		return writeThrough(x, st, fn, args[1:], pos, resT)
 	}
 	intrinsics["(*text/template.Template).Execute"] = intrinsics["(*text/template.Template).ExecuteTemplate"]
+	intrinsics["math.Abs"] = func(x *Exec, st *State, fn *ssa.Function, args []Val, pos token.Pos, resT *types.Tuple) Val {
+		c := x.c
+		t := resT.At(0).Type()
+		if c.mode.FP {
+			return Val{T: t, S: sx("fp.abs", args[0].S)}
+		}
+		return Val{T: t, S: ite(sx(">=", args[0].S, "0.0"), args[0].S, sx("-", args[0].S))}
+	}
 	intrinsics["errors.New"] = pureNonNilErr
 	intrinsics["fmt.Errorf"] = pureNonNilErr
 	pureFresh := func(x *Exec, st *State, fn *ssa.Function, args []Val, pos token.Pos, resT *types.Tuple) Val {
@@ -859,7 +870,7 @@ func init() {
 		"strconv.Atoi", "strconv.ParseUint", "strings.Fields", "strings.Join", "strings.TrimSpace", "strings.HasPrefix",
 		"strings.HasSuffix", "strings.TrimPrefix", "strings.TrimSuffix", "strings.Index", "strings.IndexByte", "strings.Contains",
 		"strings.ToLower", "strings.ToUpper", "strings.Repeat", "strings.SplitN", "strings.Trim", "strings.TrimLeft", "strings.TrimRight",
-		"strings.NewReader", "bytes.NewReader", "math.Round", "math.Abs", "math.Floor", "math.Ceil",
+		"strings.NewReader", "bytes.NewReader", "math.Round", "math.Floor", "math.Ceil",
 		"math.IsNaN", "math.IsInf", "math.Inf", "math.NaN", "math.Trunc", "math.Mod", "math.Sqrt", "math.Max", "math.Min",
 		"time.Parse", "(time.Time).Format", "(time.Time).IsZero", "strings.EqualFold", "unicode/utf8.RuneCountInString",
 		"(*regexp.Regexp).FindStringSubmatch", "(*regexp.Regexp).MatchString", "strings.Cut", "strings.Replace", "strings.ReplaceAll",
